@@ -5,7 +5,19 @@ import (
 	"io"
 	"os"
 	"path/filepath"
+	"strings"
 )
+
+// CheckFilename returns an error unless name is a plain file name, that is,
+// one which names a file in whatever directory it is joined to: not empty,
+// not "." or "..", and without any directory part.
+func CheckFilename(name string) error {
+	if name == "" || name == "." || name == ".." ||
+		strings.ContainsAny(name, "/\x00") || name != filepath.Base(name) {
+		return fmt.Errorf("Invalid file name %q: not a plain file name", name)
+	}
+	return nil
+}
 
 // createTemp creates a new, not yet existing file next to dest, with the
 // same permissions os.Create would have given dest.
